@@ -117,6 +117,13 @@ def reencrypt_cases(ctx, rng):
                     if not first.ok:
                         ctx.count("reencrypt_first_decrypt_failed")   # C08's subject
                         continue
+                    # the gateway may also change what it forwards: another protected member, another AAD
+                    edit = ["unchanged", "protected-member-added", "aad-changed"][(ai + len(form) + len(source)) % 3]
+                    desc["edit_before_reencryption"] = edit
+                    if edit == "protected-member-added":
+                        first.value.protected["cty"] = "forwarded"
+                    elif edit == "aad-changed":
+                        first.value.aad = b"aad chosen by the gateway"
                     again = call(j.jwe.encrypt_json, first.value, priv, algorithms=allow, sender_key=spriv)
                     ctx.count("reencryptions")
                     ctx.nontrivial(("reenc", alg, form, params_in, source))
@@ -131,6 +138,15 @@ def reencrypt_cases(ctx, rng):
                                       {**case, "second_token": again.value})
                     elif back.value.plaintext != pt:
                         ctx.violation("reencrypted-plaintext-differs", f"re-encrypted token yields another plaintext for {desc}", {**case, "second_token": again.value})
+                    elif params_in == "recipient":
+                        # (with the generated parameters also in the protected header the token carries duplicates, which the reference refuses)
+                        from refjose import jwe as rjwe
+                        from refjose.keys import RefKey
+                        r = rjwe.decrypt(again.value, RefKey.from_jwk(rk), RefKey.from_jwk(gen.public_jwk(sk)) if sk else None)
+                        ctx.count("reencryptions_checked_by_reference")
+                        if r.verdict != "ACCEPT" or r.payload != pt:
+                            ctx.violation(f"reencrypted-token-rejected-by-reference:{r.klass}", f"the re-encrypted token for {desc} is not valid under the reference: {r.reason}",
+                                          {**case, "second_token": again.value})
 
 
 def scale_cases(ctx, rng):
@@ -211,6 +227,34 @@ def scale_cases(ctx, rng):
         ctx.violation(f"scale:roundtrip-fails:{(v if o.ok else o).etype}", f"100 kB kid: {(v if o.ok else o).exc!r}", {"scale": "long header values"})
     elif v.value.protected.get("kid") != longv or v.value.protected.get("cty") != "é" * 30000 or v.value.plaintext != b"x":
         ctx.violation("scale:header-differs", "100 kB kid / 30000-character cty came back differently", {"scale": "long header values"})
+
+
+def import_order_cases(ctx):
+    """the round trip works for every curve and algorithm family whichever joserfc module a process imports first"""
+    from .. import importorder as IO
+    mats = {}
+    for c in g.ECDH_CURVES:
+        mats[c] = g.curve_key(c)
+    mats["oct"] = gen.new_oct(128)
+    mats["RSA"] = gen.new_rsa(2048)
+    items = []
+    for c in g.ECDH_CURVES:
+        cls = "ECKey" if mats[c]["kty"] == "EC" else "OKPKey"
+        for alg in ("ECDH-ES", "ECDH-ES+A128KW"):
+            items.append((f"roundtrip:{alg}:{c}", f"from joserfc import jwe\nfrom joserfc.jwk import {cls}\nk = {cls}.import_key(dict(M['jwks'][{c!r}]))\n"
+                                                 f"t = jwe.encrypt_compact({{'alg': {alg!r}, 'enc': 'A128GCM'}}, b'import order', k)\n"
+                                                 f"out = jwe.decrypt_compact(t, k).plaintext.decode()"))
+    items.append(("roundtrip:A128KW", "from joserfc import jwe\nfrom joserfc.jwk import OctKey\nk = OctKey.import_key(dict(M['jwks']['oct']))\n"
+                                      "t = jwe.encrypt_compact({'alg': 'A128KW', 'enc': 'A128CBC-HS256', 'zip': 'DEF'}, b'import order', k)\nout = jwe.decrypt_compact(t, k).plaintext.decode()"))
+    items.append(("roundtrip:RSA-OAEP:json", "from joserfc import jwe\nfrom joserfc.jwk import RSAKey\nk = RSAKey.import_key(dict(M['jwks']['RSA']))\n"
+                                             "o = jwe.GeneralJSONEncryption({'enc': 'A256GCM'}, b'import order')\no.add_recipient({'alg': 'RSA-OAEP'}, k)\n"
+                                             "t = jwe.encrypt_json(o, None)\nout = jwe.decrypt_json(t, k).plaintext.decode()"))
+    items.append(("roundtrip:keyset-without-kid", "from joserfc import jwe\nfrom joserfc.jwk import KeySet, JWKRegistry\n"
+                                                  "ks = KeySet([JWKRegistry.import_key(dict(M['jwks'][n])) for n in ('P-256', 'oct', 'RSA')])\n"
+                                                  "t = jwe.encrypt_compact({'alg': 'A128KW', 'enc': 'A128GCM'}, b'import order', ks)\nout = jwe.decrypt_compact(t, ks).plaintext.decode()"))
+    res = IO.run_orders(items, {"jwks": mats})
+    ctx.count("import_orders_run", len(res))
+    IO.compare(ctx, res, "import-order-dependence", "JWE round trip")
 
 
 def forbidden_cells(ctx, rng):
@@ -307,6 +351,8 @@ def run_shard(ctx):
         reencrypt_cases(ctx, rng)
     if ctx.shard == 2:
         scale_cases(ctx, rng)
+    if ctx.shard == 4:
+        import_order_cases(ctx)
     fc = forced(ctx.tier)
     for idx, kw in enumerate(fc):
         if idx % ctx.nshards != ctx.shard:
